@@ -35,7 +35,7 @@ Definition c_from_bytes (b : bytes) : val := v_res v_obs (from_bytes b).
 Definition c_from_file (c : bool * str) : val :=
   let '(text, s) := c in
   v_res (fun p => VList [v_obs (fst p); VStr (snd p)])
-        (req_from_file text (if text then utf8_enc else conv_id) s).
+        (req_from_file text (if text then utf8_enc else conv_id) (if text then utf8_width else one_byte) s).
 
 Definition v_resp (r : resp) : val :=
   VList [VStr (r_status r); v_items (r_headers r); VStr (r_body r)].
@@ -44,7 +44,7 @@ Definition v_resp (r : resp) : val :=
 Definition c_resp_from_file (c : bool * str) : val :=
   let '(text, s) := c in
   v_res (fun p => VList [v_resp (fst p); VStr (snd p)])
-        (resp_from_file text (if text then utf8_enc else conv_id) s).
+        (resp_from_file text (if text then utf8_enc else conv_id) (if text then utf8_width else one_byte) s).
 
 (* str(Response) *)
 Definition c_resp_str (c : resp * str) : val := VStr (resp_str (fst c) (snd c)).
